@@ -331,6 +331,11 @@ class Facts(object):
             if a.lo >= 0 and b.lo >= 0 and not any(math.isinf(x) for x in (a.hi, b.hi)) and b.hi < 200:
                 return Iv(a.lo << b.lo, a.hi << b.hi)
             return None
+        if op in ("bitor", "bitxor"):
+            if a.lo >= 0 and b.lo >= 0 and not any(math.isinf(x) for x in (a.hi, b.hi)):
+                top = (1 << max(int(a.hi), int(b.hi)).bit_length()) - 1      # no bit above the highest bit of either operand
+                return Iv(max(a.lo, b.lo) if op == "bitor" else 0, top)
+            return None
         if op == "bitand":
             if a.lo >= 0 and b.lo >= 0:
                 return Iv(0, min(a.hi, b.hi))
